@@ -77,17 +77,19 @@ def c17_1(ctx: Ctx) -> RuleResult:
                 # engine.random(n): the receiver is the QMC engine field
                 if fn[0] == "attr" and fn[2] == "random" and t[2]:
                     n_q += 1
-                    ret = _enclosing_value(ctx, m, call)
-                    ops = []
-                    found = False
-                    shape = None
-                    for op, node in _chain(ret):
-                        if node == t:
-                            found = True
-                            break
-                        ops.append(op)
-                        if op == "reshape":
-                            shape = node[2][0] if node[2] else None
+                    # from the value the method returns inwards to the draw (the sample may be held in locals)
+                    ops, found, shape, ret = [], False, None, _enclosing_value(ctx, m, call)
+                    for cand in [ret] + [a for a in alts(X.return_term(m))]:
+                        ops_c, shape_c, found_c = [], None, False
+                        for op, node in _chain(cand):
+                            if node == t:
+                                found_c = True
+                                break
+                            ops_c.append(op)
+                            if op == "reshape":
+                                shape_c = node[2][0] if node[2] else None
+                        if found_c and (not found or shape is None):
+                            ops, shape, found, ret = ops_c, shape_c, True, cand
                     bad_ops = [o for o in ops if o in AXIS_PERMUTING]
                     ok = found and not bad_ops
                     why = ""
@@ -101,6 +103,10 @@ def c17_1(ctx: Ctx) -> RuleResult:
                         sh_ok = (
                             shape is not None and shape[0] == "tuple" and len(shape[1]) == 3 and narg[0] == "binop" and narg[1] == "*"
                             and {shape[1][0], shape[1][1]} == {narg[2], narg[3]}
+                        ) or (
+                            # the shape arrives as one (r, p, d) tuple and is unpacked for the draw
+                            shape is not None and shape[0] != "tuple" and narg[0] == "binop" and narg[1] == "*"
+                            and {("item", shape, 0), ("item", shape, 1)} == {narg[2], narg[3]}
                         )
                         order_kw = any(k == "order" and v != ("const", "C") for o, node in _chain(ret) if o == "reshape" for k, v in node[3])
                         if not sh_ok:
